@@ -8,6 +8,8 @@ import PeroVerif.Model.Arabic
 import PeroVerif.Model.AltoText
 import PeroVerif.Lemmas.Arabic
 import PeroVerif.Lemmas.AltoText
+import PeroVerif.Props.C05
+import PeroVerif.Props.C16
 
 namespace C06
 open Py
@@ -134,5 +136,40 @@ theorem margins_cover (H W : Int) (blocks : List Alto.Box) (hne : blocks ≠ [])
   have i1 := hin bv hbv; have i2 := hin bh hbh; have i3 := hin bb hbb; have i4 := hin br hbr
   simp only [Inside, Alto.printSpace] at *
   refine ⟨rfl, ?_, ?_, ?_, ?_⟩ <;> omega
+
+/-! ### the aligned branch cannot fail in the confidence computation (C05 + C16 composed) -/
+
+/-- Whenever `align_text` succeeds on a line, `get_line_confidence` with that alignment is defined on
+any posterior matrix with the same number of frames, returns one value per character, all in [0, 1]: the
+aligned branch of the ALTO export cannot raise there. -/
+theorem alto_confidence_total {R : Type} [Field R] [LinearOrder R] [IsStrictOrderedRing R]
+    (C : Nat) (hC : 2 ≤ C) (M : List (List FA.Cost)) (probs : List (List R)) (labels : List Nat) (blank : Nat)
+    (ps : List (Option Nat)) (hp : C16.Probs C probs) (hlen : probs.length = M.length)
+    (hlab : ∀ l ∈ labels, l < C) (h : FA.alignText M labels blank = .ok ps) :
+    ∃ qs cs, ps = qs.map some ∧ Conf.getLineConfidence (C16.COps.of R) probs labels qs = some cs ∧
+      cs.length = labels.length ∧ ∀ c ∈ cs, 0 ≤ c ∧ c ≤ 1 := by
+  obtain ⟨qs, pos, hpos, hps, hql, hpw, hq⟩ := C05.positions_spec M labels blank ps h
+  obtain ⟨p, hsp, rfl⟩ := FA.forceAlignPos_ok hpos
+  obtain ⟨_, _, frames, hm, hv⟩ := FA.statePath_ok hsp
+  have hpl : p.length = M.length := by
+    rw [(FA.viterbi_ok hv).2.2.1, FA.mapM_expand_length hm]
+  have hT : ∀ a ∈ qs, a < probs.length := by
+    intro a ha
+    obtain ⟨i, hi, rfl⟩ := List.getElem_of_mem ha
+    have h1 := (hq i hi).1
+    have h2 : qs[i] < (p.map FA.posOf).length := by
+      by_contra hcon
+      rw [List.getElem?_eq_none (by omega)] at h1
+      cases h1
+    rw [List.length_map] at h2
+    omega
+  have hdef : ∃ cs, Conf.getLineConfidence (C16.COps.of R) probs labels qs = some cs := by
+    unfold Conf.getLineConfidence
+    split
+    · rename_i he
+      exact Conf.transformer_definedL (fun row hr => (hp row hr).1) he hlab
+    · exact C16.lineConfidence_defined C hC probs labels qs hp hql.symm hlab hpw hT
+  obtain ⟨cs, hcs⟩ := hdef
+  exact ⟨qs, cs, hps, hcs, C16.lineConfidence_range C probs labels qs cs hp hcs⟩
 
 end C06
